@@ -20,6 +20,10 @@
     - [lz.rt]  (instant -> wall -> instants): the wall reading is t + zone_off t and the answer is
       (t), or (a, b) with a < b and t one of them;
     - [lz.env]: [lz.at] / [lz.loc] through the public route (direction argument 0 / 1);
+    - [lz.conv] (public route): the conversions into DateTime<Local> (From<DateTime<Utc>>,
+      From<DateTime<FixedOffset>>, FromStr, From<SystemTime>) and out of it (into DateTime<Utc>,
+      DateTime<FixedOffset>) keep the instant; the offset of a Local result is [zone_off] at that
+      instant, of the Utc result 0, of the FixedOffset result the Local value's offset;
     - [lz.uat]: [lz.at] for the instants in whose year the rule is NOT regular ([spacing_rule_self]);
     - [lz.uloc] / [lz.usel] / [lz.urt]: the same statements, for the readings at which
       the zone does NOT satisfy the spacing condition [spacing_ok] (transitions closer together
@@ -217,6 +221,18 @@ Definition j_rt (z : szone) (t : Z) (out : val) : ev :=
       | _ => EBad (VTup [VInt (t + o); VTup [VInt t]])
       end
   end.
+(* the conversions: six (offset, timestamp) pairs - Local from Utc, Local from FixedOffset, Utc from Local,
+   FixedOffset from Local, Local from text, Local from SystemTime *)
+Definition j_conv (z : szone) (t : Z) (out : val) : ev :=
+  if negb (in_dom z t) then ESkip else
+  match zone_off z t with
+  | None => ESkip
+  | Some o =>
+      if negb (fo_ok o) then ESkip else
+      let p := VTup [VInt o; VInt t] in
+      let e := VTup [p; p; VTup [VInt 0; VInt t]; p; p; p] in
+      if val_eqb out e then EOk else EBad e
+  end.
 (* the unspaced variants: only where the zone is not well spaced at this reading *)
 Definition unspaced (z : szone) (j : szone -> Z -> val -> ev) (wall_of : Z -> option Z) (x : Z) (out : val) : ev :=
   match wall_of x with
@@ -278,6 +294,11 @@ Definition judge (op : bytes) (args : list val) (out : val) : verdict :=
           else if op_is op "lz.uloc" then batch (unspaced z (j_loc offs) wall_self) xs out
           else if op_is op "lz.usel" then batch (unspaced z (j_sel offs) wall_self) xs out
           else if op_is op "lz.urt" then batch (unspaced z j_rt wall_of_t) xs out
+          else if op_is op "lz.conv" then
+            match z_rule z with
+            | Some (inr a) => batch (fun t o => if spacing_rule_self a (utc_year t) then j_conv z t o else ESkip) xs out
+            | _ => batch (j_conv z) xs out
+            end
           else JSkip
       end
   | [src; zm; VInt dir; xs] =>
